@@ -169,7 +169,12 @@ func (e *Encoder) copyArr(cm *ssa.CallCommon, args []Val, st *State, pc string) 
 	}
 	n := c.define("ncopy", c.idx(), fmt.Sprintf("(ite %s %s %s)", c.cmp("<=", intT, dlen, sl), dlen, sl))
 	if !scalarElem(elem) {
-		e.havocAll(st, "copy of aggregate elements")
+		// aggregate elements: the destination's cells (within its capacity) become unknown, nothing else changes
+		if err := e.havocRange(st, d, elem); err != nil {
+			e.havocAll(st, "copy of aggregate elements")
+		} else {
+			e.note("copy of aggregate elements: destination contents not tracked")
+		}
 		return Val{T: intT, S: n}
 	}
 	key, srt := c.arrKey(elem), c.arrSort(elem)
